@@ -120,6 +120,7 @@ func cmdCheck(args []string) {
 	update := fs.Bool("update-ledger", false, "record discharged obligations in the ledger")
 	force := fs.Bool("force-ledger", false, "rewrite the ledger even if obligations of the old ledger are missing (after renaming)")
 	jobs := fs.Int("jobs", 16, "parallel queries")
+	boundedFile := fs.String("bounded", "", "report of the bounded stand-in (JSON) to merge")
 	fs.Parse(args)
 	if *prop == "" {
 		fmt.Fprintln(os.Stderr, "check: -prop required")
@@ -335,6 +336,46 @@ func cmdCheck(args []string) {
 	}
 	sort.Strings(undecided)
 
+	// ---- bounded stand-in (labelled bounded; never counted as discharged) ----
+	var bounded map[string]interface{}
+	type bmis struct {
+		Key   string      `json:"key"`
+		Input interface{} `json:"input"`
+		Got   interface{} `json:"got"`
+		Want  interface{} `json:"want"`
+	}
+	var bviol []bmis
+	if *boundedFile != "" {
+		data, err := os.ReadFile(*boundedFile)
+		if err != nil {
+			violations = append(violations, viol{nil, "bounded stand-in did not run: " + err.Error(), "bounded: report missing"})
+		} else {
+			var rep struct {
+				Check      string   `json:"check"`
+				Bound      string   `json:"bound"`
+				Cases      int64    `json:"cases"`
+				Distinct   int64    `json:"distinct_nontrivial"`
+				Abstained  int64    `json:"abstained"`
+				Mismatches []bmis   `json:"mismatches"`
+				Samples    []string `json:"samples"`
+				Exhaustive bool     `json:"exhaustive"`
+			}
+			json.Unmarshal(data, &rep)
+			bounded = map[string]interface{}{"label": "bounded", "check": rep.Check, "bound": rep.Bound, "cases": rep.Cases, "compared": rep.Distinct, "oracle_abstained": rep.Abstained, "mismatches": len(rep.Mismatches), "exhaustive_within_bound": rep.Exhaustive, "samples": rep.Samples}
+			if rep.Cases == 0 {
+				violations = append(violations, viol{nil, "bounded stand-in explored no case", "bounded: no cases"})
+			}
+			for _, m := range rep.Mismatches {
+				name := "bounded " + rep.Check + ": " + m.Key
+				if kf := isKnown(name); kf != nil {
+					knownHit = append(knownHit, kf.text)
+					continue
+				}
+				bviol = append(bviol, m)
+			}
+		}
+	}
+
 	// ---- report ----
 	for _, k := range knownHit {
 		fmt.Printf("KNOWN-FINDING: %s\n", k)
@@ -356,6 +397,21 @@ func cmdCheck(args []string) {
 		fmt.Printf("  obligation: %s\n  reason: %s\n", v.name, v.reason)
 	}
 
+	// mismatches of the bounded stand-in are failing inputs of the real code
+	for i, m := range bviol {
+		if i >= 5 {
+			break // one input per class is enough; the report file has all of them
+		}
+		nviol++
+		path := filepath.Join(replayDir, fmt.Sprintf("b%03d.json", i))
+		data, _ := json.MarshalIndent(map[string]interface{}{"property": *prop, "obligation": "bounded stand-in: real code disagrees with the reference written from the property", "input": m.Input, "got": m.Got, "want": m.Want, "confirmed_on_real_code": true, "all_mismatches": *boundedFile}, "", " ")
+		os.WriteFile(path, data, 0o644)
+		fmt.Printf("VIOLATION property=%s replay=%s\n", *prop, path)
+		fmt.Printf("  bounded stand-in: input %v: got %v, want %v\n", m.Input, m.Got, m.Want)
+	}
+	if len(bviol) > 5 {
+		fmt.Printf("  (%d more mismatching inputs in %s)\n", len(bviol)-5, *boundedFile)
+	}
 	if *update && (nviol == 0 || *force) {
 		nl := &LedgerProp{Obligations: map[string]*LedgerEntry{}, NoPanicFuncs: map[string]int{}}
 		k1ok := map[string]bool{}
@@ -425,6 +481,9 @@ func cmdCheck(args []string) {
 	cov["specified_fault_points"] = len(faults)
 	cov["known_findings"] = knownHit
 	cov["vacuity_guards"] = countCovers(obs)
+	if bounded != nil {
+		cov["bounded_stand_in"] = bounded
+	}
 	writeEvidence(*verif, *prop, *tier, seed, cov, assumptionsList(assume, invs), time.Since(t0), nil, nviol, nil)
 	fmt.Printf("property %s (%s): %d obligations, %d discharged, %d undecided, %d known, %d violations, %.1fs\n", *prop, *tier, claimed, discharged, len(undecided), len(knownHit), nviol, time.Since(t0).Seconds())
 	if nviol > 0 {
